@@ -214,6 +214,10 @@ def register(reg):
 
     KEEP = {'nothing-lost-left-of-frontier': ['inv:nothing-lost-left-of-frontier', 'inv:stack-tiles-the-rest', 'inv:lengths',
                                               'inv:frontier-in-range', 'req:node-boxes-enclose-their-rows', 'hint:', 'lemma:'],
+            'covered-ordered-left-of-frontier': ['inv:covered-ordered-left-of-frontier', 'inv:stack-tiles-the-rest', 'inv:lengths',
+                                                 'inv:frontier-in-range', 'hint:'],
+            'maybe-ordered-left-of-frontier': ['inv:maybe-ordered-left-of-frontier', 'inv:stack-tiles-the-rest', 'inv:lengths',
+                                               'inv:frontier-in-range', 'hint:'],
             'covered-rows-inside-query': ['inv:covered-rows-inside-query', 'inv:lengths', 'hint:',
                                           ]}
 
